@@ -133,6 +133,11 @@ def run_model(inp_path, out_path):
     return out, rc
 
 def gen_stream(binary, stream, n, seed, path):
+    if stream.startswith('py:'):      # a generator script of /verif/tools: `py:<script> <mode…>`
+        parts = stream[3:].split(' ')
+        with open(path, 'w') as f:
+            r = subprocess.run([sys.executable, os.path.join(VERIF, 'tools', parts[0]), str(n), str(seed)] + parts[1:], stdout=f, stderr=subprocess.PIPE, env=ENV, timeout=3600)
+        return r.returncode == 0
     with open(path, 'w') as f:
         r = subprocess.run([binary, 'gen', stream, str(n), str(seed)], stdout=f, stderr=subprocess.PIPE, env=ENV, timeout=3600)
     return r.returncode == 0
